@@ -661,17 +661,16 @@ def model_term(case):
 # =============================================================================================
 # the property, checked on the implementation's observation with python's own machinery
 def expected_labels(case):
-    """(labels the property demands, number of returned values) or None when the definition gives no rule"""
+    """the labels the property demands when they are scraped: every returned expression as written,
+    white-space runs (including line breaks) collapsed to one blank; None = nothing is returned"""
+    import re
     body = case["body"]
     if len(body) > 1:
         return None
     if not body or body[0][0] == "bare" or (body[0][0] == "single" and body[0][1] == ["c", ["n"]]):
-        scraped = None
-    elif body[0][0] == "single":
-        scraped = [canonical_text(body[0][1])]
-    else:
-        scraped = [canonical_text(e) for e in body[0][1]]
-    return scraped
+        return None
+    _, frags = fn_source(case)
+    return [re.sub(r"\s+", " ", "\n".join(f)) for f in frags[0]]
 
 
 def fn_class_expectation(case):
@@ -862,9 +861,21 @@ def oracle_fn(case, obs):
     scraped = None if multi else expected_labels(case)
     labels = dec if dec is not None else scraped
     exp_labels = list(dict.fromkeys(labels)) if labels is not None else ["None"]
-    nows = lambda t: t.replace(" ", "")       # "as written", up to white space
-    if [nows(o[0]) for o in couts] != [nows(t) for t in exp_labels]:
+    if [o[0] for o in couts] != exp_labels:
         return f"output-labels: {[o[0] for o in couts]} != {exp_labels}"
+    # the return annotation goes to the outputs: whole for one output, by component for a tuple[...]
+    r = case.get("ret")
+    if labels is not None and len(exp_labels) == len(labels):
+        if r is None:
+            exp_oh = [[] for _ in exp_labels]
+        elif len(exp_labels) == 1:
+            exp_oh = [hint_obs_of_ann(r)]
+        elif r[0] == "t":
+            exp_oh = [["u", list(u)] for u in r[1]]
+        else:
+            exp_oh = None
+        if exp_oh is not None and [o[1] for o in couts] != exp_oh:
+            return f"output-hints: {[o[1] for o in couts]} != {exp_oh}"
     if len(obs) < 2:
         return "observation-shape"
     # the bare function, bound by python itself
@@ -1412,6 +1423,38 @@ def exhaustive_splits(names, vals):
     return out
 
 
+def exhaustive_fn_cases():
+    """every signature shape of 0-4 parameters (defaults on every suffix), every subset of provided
+    parameters, every positional prefix and up to 6 keyword orders, at construction and at call time"""
+    out = []
+    names_all = ["a", "b", "c", "x"]
+    for k in range(0, 5):
+        names = names_all[:k]
+        for ndef in range(0, k + 1):
+            params = [{"name": nm, "ann": None, "default": (["i", 90 + i] if i >= k - ndef else None)}
+                      for i, nm in enumerate(names)]
+            body = [["tuple", [["p", nm] for nm in names], 0]] if k > 1 else \
+                [["single", ["p", names[0]]]] if k == 1 else [["single", ["c", ["i", 7]]]]
+            base = {"kind": "fn", "params": params, "body": body, "ret": None, "declared": None,
+                    "validate": True, "via": "call", "postponed": False}
+            for mask in range(2 ** k):
+                sub = [i for i in range(k) if mask >> i & 1]
+                j = 0
+                while j < k and j in sub:
+                    j += 1
+                for npos in range(j + 1):
+                    rest = [i for i in sub if i >= npos]
+                    for pi, perm in enumerate(itertools.permutations(rest)):
+                        if pi >= 6:
+                            break
+                        op = [[["i", i + 1] for i in range(npos)], [[names[i], ["i", i + 1]] for i in perm]]
+                        if (mask + npos + pi) % 2:
+                            out.append({**base, "ops": [op, [[], []]]})
+                        else:
+                            out.append({**base, "ops": [[[], []], op]})
+    return out
+
+
 def generate(ctx):
     rng = ctx.rng
     for p in GEN.glob("*.py") if GEN.exists() else []:
@@ -1454,6 +1497,9 @@ def generate(ctx):
                  "ops": [[rows[:npos], [[rn[i], rows[i]] for i in range(npos, n)]], [[], []]]})
         add({"kind": "fromlist", "n": n, "via": "function", "ops": [[[], []], [[["l", vs]], []]]})
         add({"kind": "fromlist", "n": n, "via": "class", "ops": [[[["l", vs]], []], [[], []]]})
+    if not ctx.quick:
+        for c in exhaustive_fn_cases():
+            add(c)
     n_fn = ctx.n(620, 9000)
     n_tf = ctx.n(260, 3000)
     n_dc = ctx.n(200, 2500)
